@@ -8,12 +8,13 @@ extra = sys.argv[4:]
 wt = '/tmp/wt_%s' % prop
 m = '%s/out/m%s' % (wt, k)
 dst = '/verif/seeded/%s-%sm%s' % (prop, tag + '-' if tag else '', k)
-conf = subprocess.run(['/verif/tools/confirm_seed.sh', wt, m], stdout=subprocess.PIPE, stderr=subprocess.STDOUT, text=True).stdout.strip()
+VT = os.environ.get('MSIM_VERIF', '/verif')  # a frozen snapshot of /verif may run the checks while /verif itself is being edited
+conf = subprocess.run([VT + '/tools/confirm_seed.sh', wt, m], stdout=subprocess.PIPE, stderr=subprocess.STDOUT, text=True).stdout.strip()
 print('confirm:', conf)
 ok = 'demo_clean_rc=0' in conf and 'demo_mutated_rc=0' not in conf and '100% tests passed, 0 tests failed out of 78' in conf and 'build_rc=0' in conf
 results = {}
 for p in [prop] + extra:
-    out = subprocess.run(['/verif/tools/try_seed.sh', p, m + '/patch.diff'], stdout=subprocess.PIPE, stderr=subprocess.STDOUT, text=True).stdout
+    out = subprocess.run([VT + '/tools/try_seed.sh', p, m + '/patch.diff'], stdout=subprocess.PIPE, stderr=subprocess.STDOUT, text=True).stdout
     print(out)
     rc = re.search(r'exit=(\d+)', out)
     sigs = re.findall(r'signature: (.*)', out)
